@@ -15,7 +15,7 @@ def main():
     if not a.quiet:
         for f in rep["functions"]:
             status = "STALE " + f["stale"] if "stale" in f else ("UNSUPPORTED " + f["unsupported"] if "unsupported" in f else f"{f['discharged']}/{f['obligations']}")
-            print(f"{f['function']:96s} {status:>10s}  sha={f.get('sha','-')} gen={f.get('gen_s','-')}s solve={f.get('solver_s','-')}s" + (f" VACUOUS {f['vacuous_paths']}" if f.get("vacuous_paths") else ""))
+            print(f"{f['function']:96s} {status:>10s}  sha={f.get('sha','-')} gen={f.get('gen_s','-')}s solve={f.get('solver_s','-')}s" + (f" VACUOUS-GROUPS {f['vacuous_groups']}" if f.get("vacuous_groups") else "") + (f" late-pruned paths {len(f['vacuous_paths'])}" if f.get("vacuous_paths") else ""))
             for r in f.get("failed", [])[:8]: print(f"      FAIL {r['name']}  {r['result']} {r['solver_s']}s (L{r['line']}) attempts={r['attempts']}")
             if "traceback" in f: print(f["traceback"])
         for lm in rep["lemmas"]:
